@@ -10,9 +10,11 @@ struct Tri {
     int n; bool cyc;
     std::vector<double> d, s; double c = 0.0;
 };
-static Tri fill(SymmetricTridiagonalSolver<double>& S, int n, bool cyc, bool zero_sub = false)
+static Tri fill(SymmetricTridiagonalSolver<double>& S, int n, bool cyc, bool zero_sub = false, bool stale_corner = false)
 {
     Tri t; t.n = n; t.cyc = cyc; t.d.resize(n); t.s.resize(n);
+    // history: the object was used as a cyclic matrix (the state a constructor leaves) with some corner entry before
+    if (stale_corner) { S.is_cyclic(true); S.cyclic_corner_element() = vsym("stale_corner", 0, 0); }
     S.is_cyclic(cyc);
     for (int i = 0; i < n; i++) { t.d[i] = vsym("d", i, 0); S.main_diagonal(i) = t.d[i]; }
     for (int i = 0; i < n - 1; i++) { t.s[i] = (zero_sub && (i % 2)) ? 0.0 : vsym("s", i, 0); S.sub_diagonal(i) = t.s[i]; }
@@ -31,12 +33,12 @@ static double row_times(const Tri& t, int i, const double* x)
     return r;
 }
 
-// a: n, cyclic, number of solves, zero-subdiagonal pattern
+// a: n, cyclic, number of solves, variant (1: zero sub-diagonal pattern, 2: a corner entry left from an earlier cyclic use)
 VENTRY(h_tridiag)
 {
     const int n = a[0]; const bool cyc = a[1] != 0; const int solves = a[2];
     SymmetricTridiagonalSolver<double> S(n);
-    Tri t = fill(S, n, cyc, a[3] != 0);
+    Tri t = fill(S, n, cyc, a[3] == 1, a[3] == 2);
     std::vector<double> first_x(n), first_b(n);
     for (int k = 0; k < solves; k++) {
         Vector<double> x(n), t1(n), t2(n);
